@@ -7,6 +7,7 @@ from .. import bits, paths
 from ..core import call_attr, calls_in, const, dotted, is_const, kwarg, norm, slice_parts, text, walk_local
 
 EXPLANATION = [
+    'C08.allocator-scan: every CID a find_free_* allocator returns was individually tested `not in` the table it was given (shared with C09; includes find_free_br_edr_cid).',
     'C08.processor-arguments: ChannelManager.make_mode_processor passes its peer_* parameters (peer_mps in particular) to the ERTM processor unmodified.',
     'C08.reset-before-sink: EnhancedRetransmissionProcessor.on_pdu empties its reassembly buffer before the completed SDU is handed to the channel on every path.',
     'C08.frames-via-channel: every frame sent by a *Processor class of bumble.l2cap goes through self.channel.send_pdu (which applies the negotiated FCS); none is handed to the channel manager directly.',
@@ -683,7 +684,13 @@ def processor_arguments(ctx):
     R.check(ok, rule, 'bumble.l2cap.ChannelManager.make_mode_processor | constructor', 'the processor is built from the parameters themselves', 'the ERTM processor is not built from the plain peer_* parameters', p.loc(ctor[0]) if ctor else p.loc(fn))
 
 
+def allocator_scan_rule(ctx):
+    from .c09 import allocator_scan
+    allocator_scan(ctx, 'C08.allocator-scan')
+
+
 RULES = [
+    ('C08.allocator-scan', allocator_scan_rule),
     ('C08.processor-arguments', processor_arguments),
     ('C08.reset-before-sink', reset_before_sink),
     ('C08.frames-via-channel', frames_via_channel),
